@@ -2,9 +2,33 @@
 from .progfam import *
 
 
+def _printed_integers(out, tier, seed):
+    """Last clause of C11: the text the library prints for an integer (and for a byte array) parses back to it.
+    The values are those of the C15 value universe (MC_ValueText.tla) at integer types and [u8; n]."""
+    from . import c15  # registers the valuetext family
+    cases, st = tlc_family("C11", "valuetext", tier, seed)
+    sel = [dict(c) for c in cases if c.get("kind") == "value_text"
+           and (c["ty"].get("k") == "u" or (c["ty"].get("k") == "arr" and c["ty"].get("e", {}).get("k") == "u" and c["ty"]["e"].get("n") == 8))]
+    for c in sel:
+        c.pop("id", None)
+    results = run_replay("C11", sel, name="printed")
+    bad = 0
+    for c in sel:
+        r = results[c["id"]]
+        if r.get("ok"):
+            continue
+        bad += 1
+        key = json.dumps({"ty": c["ty"], "v": c["v"]}, sort_keys=True)
+        out.violation("C11:print:" + src_hash(key),
+                      f"the text `{r.get('printed')}` printed for a value of type `{r.get('ty')}` does not parse back to it "
+                      f"(round trip {r.get('round_trip')}): {r.get('error', r.get('panic', ''))}", {"case": c, "observed": r})
+    out.coverage["printed_integers_reparsed"] = len(sel)
+    out.coverage["states"] = out.coverage.get("states", 0) + st["distinct"]
+
+
 def run(tier, seed):
     return run_prog_property(
-        "C11", ["literals"], tier, seed, verdict_fams=("literals",),
+        "C11", ["literals"], tier, seed, verdict_fams=("literals",), post=_printed_integers,
         rule="MC_Literals.tla: for every width N in {1,..,256}: decimal 0, 1, 2^N-1, 2^N, 2^N+1, an 80-digit number, fixed large "
              "samples (also of the next width), underscore placements (leading, trailing, inner, double), leading zeros (2 and 70), "
              "empty-digit forms `_` `__`; binary with N, N-1, N+1, 2N digits, underscores, `0b_`; hexadecimal with N/4, N/4-1, "
